@@ -102,7 +102,16 @@ type pstate struct {
 	events []*Event
 	facts  FactSet
 	visits map[int32]int
+	unroll map[int32]int // next element of literal-list range loops being unrolled
 	loops  []ast.Stmt
+	defers []deferred // calls registered by defer statements, run at the exit of the path
+}
+
+// deferred is one registered deferred call: either the events of a call whose arguments were evaluated at
+// the defer statement, or a parameterless function literal whose body runs against the state at exit.
+type deferred struct {
+	events []*Event
+	lit    *ast.FuncLit
 }
 
 func (s *pstate) clone() *pstate {
@@ -114,8 +123,15 @@ func (s *pstate) clone() *pstate {
 	for k, v := range s.visits {
 		n.visits[k] = v
 	}
+	if len(s.unroll) > 0 {
+		n.unroll = make(map[int32]int, len(s.unroll))
+		for k, v := range s.unroll {
+			n.unroll[k] = v
+		}
+	}
 	n.events = append([]*Event(nil), s.events...)
 	n.loops = append([]ast.Stmt(nil), s.loops...)
+	n.defers = append([]deferred(nil), s.defers...)
 	n.ev = &evaluator{p: s.ev.p, f: s.ev.f, st: n, busy: map[*types.Var]bool{}, depth: s.ev.depth}
 	return n
 }
@@ -192,6 +208,27 @@ func (p *Prog) PathsOf(f *Func) []*Path {
 func (p *Prog) walk(f *Func, b *cfg.Block, st *pstate, out *[]*Path) {
 	if len(*out) > maxPaths {
 		panic(tooManyPaths{f.Name})
+	}
+	// a range over a literal list of known length is unrolled exactly, element by element
+	if lit := p.unrollable(f, b, st); lit != nil {
+		i := st.unroll[b.Index]
+		n := len(lit.A) - 1
+		if i >= n {
+			delete(st.unroll, b.Index)
+			p.walk(f, b.Succs[1], st, out)
+			return
+		}
+		if st.unroll == nil {
+			st.unroll = map[int32]int{}
+		}
+		st.unroll[b.Index] = i + 1
+		for _, lb := range loopBlocks(b) {
+			delete(st.visits, lb.Index)
+		}
+		rs := b.Stmt.(*ast.RangeStmt)
+		p.bindRangeTo(f, rs, st, atom("#"+strconv.Itoa(i)), lit.A[1+i])
+		p.walk(f, b.Succs[0], st, out)
+		return
 	}
 	st.visits[b.Index]++
 	if st.visits[b.Index] > 2 {
@@ -510,6 +547,90 @@ func isPanicCall(f *Func, x ast.Expr) bool {
 	return ok && b.Name() == "panic"
 }
 
+// straightLine: a block of expression / assignment statements only.
+func straightLine(b *ast.BlockStmt) bool {
+	if b == nil {
+		return false
+	}
+	for _, s := range b.List {
+		switch s.(type) {
+		case *ast.ExprStmt, *ast.AssignStmt, *ast.IncDecStmt:
+		default:
+			return false
+		}
+	}
+	return true
+}
+
+// unrollable: b is the header of a range loop over an unkeyed slice / array literal with at most 8 elements.
+func (p *Prog) unrollable(f *Func, b *cfg.Block, st *pstate) *Term {
+	if b.Kind != cfg.KindRangeLoop || len(b.Succs) != 2 {
+		return nil
+	}
+	rs, ok := b.Stmt.(*ast.RangeStmt)
+	if !ok {
+		return nil
+	}
+	switch f.Pkg.TypesInfo.TypeOf(rs.X).Underlying().(type) {
+	case *types.Slice, *types.Array:
+	default:
+		return nil
+	}
+	q := &evaluator{p: p, f: f, st: st, busy: map[*types.Var]bool{}, quiet: true}
+	x := q.eval(rs.X)
+	if x.Op != "lit" || len(x.A) < 2 || len(x.A) > 9 {
+		return nil
+	}
+	return x
+}
+
+// loopBlocks: the blocks of the loop whose header is b (reachable from its body without passing the header).
+func loopBlocks(b *cfg.Block) []*cfg.Block {
+	seen := map[*cfg.Block]bool{b: true}
+	var out []*cfg.Block
+	var dfs func(x *cfg.Block)
+	dfs = func(x *cfg.Block) {
+		if seen[x] {
+			return
+		}
+		seen[x] = true
+		out = append(out, x)
+		for _, s := range x.Succs {
+			dfs(s)
+		}
+	}
+	dfs(b.Succs[0])
+	// blocks after the loop are reachable only through the header's exit edge, which the search never takes
+	return out
+}
+
+func (p *Prog) bindRangeTo(f *Func, rs *ast.RangeStmt, st *pstate, key, val *Term) {
+	info := f.Pkg.TypesInfo
+	bind := func(e ast.Expr, t *Term) {
+		id, ok := e.(*ast.Ident)
+		if !ok || id.Name == "_" {
+			return
+		}
+		var v *types.Var
+		if o, ok := info.Defs[id].(*types.Var); ok {
+			v = o
+		} else if o, ok := info.Uses[id].(*types.Var); ok {
+			v = o
+		}
+		if v != nil {
+			nt := *t
+			nt.Typ = v.Type()
+			st.vars[v] = &nt
+		}
+	}
+	if rs.Key != nil {
+		bind(rs.Key, key)
+	}
+	if rs.Value != nil {
+		bind(rs.Value, val)
+	}
+}
+
 func (p *Prog) bindRange(f *Func, s ast.Stmt, st *pstate) {
 	rs, ok := s.(*ast.RangeStmt)
 	if !ok {
@@ -671,12 +792,31 @@ func (p *Prog) execNode(f *Func, n ast.Node, st *pstate, out *[]*Path) bool {
 		p.finish(f, st, rs, s.Pos(), out)
 		return true
 	case *ast.DeferStmt:
+		// defer func() { straight-line body }(): the body runs at exit, reading the variables as they are then
+		if lit, ok := ast.Unparen(s.Call.Fun).(*ast.FuncLit); ok && len(s.Call.Args) == 0 && straightLine(lit.Body) {
+			st.defers = append(st.defers, deferred{lit: lit})
+			break
+		}
+		// defer f(args): the arguments are evaluated now, the call happens at exit
 		before := len(st.events)
 		st.ev.eval(s.Call)
+		var own []*Event
 		for _, e := range st.events[before:] {
 			if e.Kind == EvCall && e.Node == s.Call {
 				e.Defer = true
+				own = append(own, e)
 			}
+		}
+		if len(own) == 1 && own[0].CI.fn != nil {
+			// a module call: its effects belong to the exit, not to the defer statement
+			kept := st.events[:before]
+			for _, e := range st.events[before:] {
+				if e != own[0] {
+					kept = append(kept, e)
+				}
+			}
+			st.events = kept
+			st.defers = append(st.defers, deferred{events: own})
 		}
 	case *ast.GoStmt:
 		st.ev.eval(s.Call)
@@ -814,6 +954,15 @@ func (p *Prog) assignTo(f *Func, lhs ast.Expr, val *Term, old *Term, st *pstate,
 				return
 			}
 		}
+		// element update of a collection held in a struct field: a write of that field
+		if se, ok := ast.Unparen(l.X).(*ast.SelectorExpr); ok {
+			if sel, ok := info.Selections[se]; ok && sel.Kind() == types.FieldVal {
+				cur := st.ev.eval(se)
+				upd := mk("upd", cur, st.ev.eval(l.Index), val).withType(sel.Obj().Type())
+				p.assignTo(f, se, upd, cur, st, node)
+				return
+			}
+		}
 		st.ev.eval(l.X)
 		st.ev.eval(l.Index)
 	case *ast.StarExpr:
@@ -856,6 +1005,20 @@ func (p *Prog) finish(f *Func, st *pstate, rs []*Term, pos token.Pos, out *[]*Pa
 			exit = classifyErr(rs[i], st.facts)
 		}
 	}
+	// deferred calls run now, last registered first
+	for i := len(st.defers) - 1; i >= 0; i-- {
+		d := st.defers[i]
+		if d.lit != nil {
+			for _, stm := range d.lit.Body.List {
+				p.execNode(f, stm, st, out)
+			}
+			continue
+		}
+		for _, e := range d.events {
+			st.emit(e)
+		}
+	}
+	st.defers = nil
 	st.emit(&Event{Kind: EvReturn, Pos: pos})
 	pa := &Path{Fn: f, Events: st.events, Exit: exit, Ret: rs, RetPos: pos}
 	for i, pr := range f.Params {
@@ -958,7 +1121,7 @@ func (p *Prog) predDef(g *Func) *Term {
 		}
 		for _, ev := range pa.Events {
 			switch ev.Kind {
-			case EvFact, EvReturn, EvIndex:
+			case EvFact, EvReturn, EvIndex, EvAssign:
 			case EvCall:
 				// calls of opaque pure accessors only (no module callee with a body, no store / bank / dyn)
 				if ev.CI.fn != nil || ev.CI.name == "dyn" || p.classifyCall(g, ev) != nil {
